@@ -2,28 +2,19 @@ From Coq Require Import List NArith Bool Arith.
 Import ListNotations.
 From PV Require Import Regex Base LexTables NodeModel ParserBase ParserDecl ParserMain Api.
 
-(* outcome of the whole-pipeline model on a text, coordinates erased, token counter dropped *)
-Definition outcome_str (text: str) : str :=
-  match run_parse text (s2l "f.c") with
-  | Ok (ast, _) => s2l "OK|" ++ show_ast (N.to_nat 1000) false ast
-  | Err l m => s2l "E|" ++ show_loc l ++ s2l ": " ++ m
-  | Crash k => s2l "C|" ++ crash_name k
-  | OutOfFuel => s2l "R"
-  end.
-
-(* witness: a stray } escapes as AssertionError (scope pop on an empty stack) *)
-Example C06_stray_rbrace_refuted :
-  outcome_str (s2l "}") = s2l "C|AssertionError".
+(* a stray } is a located ParseError (was an AssertionError before the fix) *)
+Example ex_C06_stray_rbrace :
+  outcome_str (s2l "}") = s2l "E|f.c: Unmatched '}'".
 Proof. vm_compute. reflexivity. Qed.
-(* witness: AttributeError (specifier inspection assumes IdentifierType) *)
-Example C06_int_struct_refuted :
-  outcome_str (s2l "int struct T;") = s2l "C|AttributeError".
+(* two type specifiers where the last is not a plain name: ParseError (was AttributeError) *)
+Example ex_C06_int_struct :
+  outcome_str (s2l "int struct T;") = s2l "E|f.c:1:1: Invalid declaration".
 Proof. vm_compute. reflexivity. Qed.
-(* witness: ValueError from the integer-suffix counter applied to a multi-character constant *)
-Example C06_multichar_refuted :
-  outcome_str (s2l "int x = 'uu';") = s2l "C|ValueError".
+(* a multi-character constant made of suffix letters is an int constant (was ValueError) *)
+Example ex_C06_multichar :
+  outcome_str (s2l "int x = 'uu';") = s2l "OK|(FileAST [(Decl 'x' [] [] [] [] (TypeDecl 'x' [] None (IdentifierType ['int'])) (Constant 'int' ""'uu'"") None)])".
 Proof. vm_compute. reflexivity. Qed.
-(* witness: a ParseError whose message does not start with a source location *)
-Example C06_unlocated_refuted :
-  outcome_str (s2l "const;") = s2l "E|?: Invalid declaration".
+(* the message starts with a source location (was '?: ...') *)
+Example ex_C06_located :
+  outcome_str (s2l "const;") = s2l "E|f.c: Invalid declaration".
 Proof. vm_compute. reflexivity. Qed.
